@@ -202,8 +202,8 @@ def apply_op(butler, universe, conv, objs, o):
 def dump(root, universe, conv, objs):
     """Final dimension tables and overlap tables, read straight from the SQLite file."""
     enc = {}
-    for rid, r in objs.items():
-        enc[base64.b64encode(r.encode()).decode()] = rid
+    for rid, r in sorted(objs.items(), reverse=True):
+        enc[base64.b64encode(r.encode()).decode()] = rid      # equal boxes decode to the SMALLEST id (as records_via_query does)
     con = sqlite3.connect(f"file:{root}/gen3.sqlite3?mode=ro", uri=True)
     tables, overlaps = {}, {}
     common = universe.commonSkyPix
@@ -306,7 +306,7 @@ def records_via_query(butler, universe, conv, objs):
             vals = [conv.from_impl(d, m.get(c)) for d, c in colmap]
             rid = None
             if e.spatial is not None and r.region is not None:
-                rid = next((k for k, x in objs.items() if x == r.region), -1)
+                rid = next((k for k, x in sorted(objs.items()) if x == r.region), -1)
             ts = None
             if e.temporal is not None and r.timespan is not None:
                 ts = ts_from_nsec(*r.timespan.nsec) if hasattr(r.timespan, "nsec") else ts_from_nsec(r.timespan._nsec[0], r.timespan._nsec[1])
